@@ -288,7 +288,7 @@ DIRECTED = ["kj", "kj_fixed", "kj_same", "jk_square", "jk_manifold", "kj_manifol
             "identity_kk", "identity_alone", "identity_two", "identity_fold", "identity_drop", "identity_drop_sum", "identity_keep", "subst_capture", "subst_shadow", "subst_zero",
             "restricted_in", "restricted_out", "rc_basic", "rc_net", "rc_float", "rc_nested_int", "rc_nested_half", "rc_power_merge",
             "rc_numerator", "rc_all_positive", "rc_two_bases", "rc_split", "rc_abs", "rc_free_index", "rc_cplx", "grad_chain",
-            "piola_div", "sum_of_cancels", "under_division"]
+            "piola_div", "sum_of_cancels", "under_division", "identity_shared_k", "identity_shared_k_fixed", "kj_shared_k", "rc_minus_one", "rc_minus_one_odd"]
 
 
 def directed(G, kind):
@@ -432,6 +432,20 @@ def directed(G, kind):
         return P(S(S(S(e, i), a), l), dJ)
     if kind == "sum_of_cancels":
         return S(P(K[a, k], J[k, b]), k) * vt[b] + S(P(It[a, l], vt[l]), l)
+    if kind == "identity_shared_k":
+        # ONE Index object is the summation index of two delta contractions with different partners (free a vs b)
+        return P(S(P(It[a, l], vt[l]), l), S(P(It[b, l], Mtt[l, b]), l)) if rng.random() < 0.5 else S(P(It[a, l], vt[l]), l) * vt[a] + S(P(It[b, l], vt[l]), l) * vt[b]
+    if kind == "identity_shared_k_fixed":
+        return S(P(It[0, l], vt[l]), l) * f0 + S(P(It[1, l], vt[l]), l) * f1 + S(P(It[l, t - 1], Mtt[l, 0]), l)
+    if kind == "kj_shared_k":
+        return S(P(K[a, k], J[k, b]), k) * Mtt[a, b] + S(P(K[b, k], J[k, a]), k) * Mtt[a, b] + S(P(K[0, k], J[k, a]), k) * vt[a]
+    if kind == "rc_minus_one":
+        # a reciprocal with numerator -1 is not a pure power of its denominator
+        m1 = ufl.as_ufl(rng.choice([-1, -1.0]))
+        return P(Power(dJ, ufl.as_ufl(2)), Division(m1, dJ)) + P(P(f0, f0), Division(m1, f0)) * f1
+    if kind == "rc_minus_one_odd":
+        m1 = ufl.as_ufl(-1)
+        return P(Power(dJ, ufl.as_ufl(4)), Power(Division(m1, dJ), ufl.as_ufl(3))) + P(dJ, Division(m1, Power(dJ, ufl.as_ufl(2)))) * f0
     if kind == "under_division":
         return S(P(K[a, k], J[k, a]), k) / (dJ * dJ) * dJ
     raise KeyError(kind)
